@@ -3,7 +3,6 @@ package h
 import (
 	"bytes"
 	"fmt"
-	sgbucket "github.com/couchbase/sg-bucket"
 	"hash/fnv"
 	"sort"
 	"strings"
@@ -48,10 +47,10 @@ type Run struct {
 	Ghosts       []ghost // data store objects of dropped collections, kept to be used after the drop
 	ghostWrites  int
 	stoppedFeeds []*Collector
-	cpSeen       map[int]uint64                 // per collection: highest CAS its checkpointed dump runs delivered
-	heldIters    []sgbucket.QueryResultIterator // query iterators left open by "hold" queries
-	SharedKeyOps int                            // steps whose key existed in >= 2 collections in different states
-	IsoProbes    bool                           // C11: compare query/view/ddoc probes of other collections after each step
+	cpSeen       map[int]uint64 // per collection: highest CAS its checkpointed dump runs delivered
+	heldIters    []heldIter     // query iterators left open by "hold" queries
+	SharedKeyOps int            // steps whose key existed in >= 2 collections in different states
+	IsoProbes    bool           // C11: compare query/view/ddoc probes of other collections after each step
 	probes       map[int]string
 	Twin         *World // C11: a second bucket with the same collection and key names; must never change
 	twinState    map[string]St
